@@ -42,6 +42,11 @@ let check (fields : sexp list) : verdict * string option =
   else if (match first with Some b -> int_of_byte b <> want_first | None -> true) then
     (OracleFail (Printf.sprintf "the SSLRequest was not answered with the single byte '%c'" (Char.chr want_first)), None)
   else if not rawok then (OracleFail "bytes sent after 'S' are not TLS records: something travelled outside the TLS session", None)
+  else if hs = "ok" && (match field_opt "readend" tlo with Some [A "closed"] | None -> false | _ -> true) &&
+          (* a CancelRequest as the first packet inside TLS is closed in an orderly way, like its plaintext equivalent
+             (the library closes the TLS connection itself: its closing record is the last thing on the wire) *)
+          (match List.map int_of_byte tlsin with 0 :: 0 :: 0 :: 16 :: 4 :: 210 :: 22 :: 46 :: _ -> true | _ -> false) then
+    (OracleFail "a CancelRequest inside the TLS session was not closed in an orderly way: no closing record (close_notify) was sent", None)
   else if (let raw_hex = atom (field1 "raw" fields) in
            (try ignore (Str.search_forward (Str.regexp_string "53545546464544") raw_hex 0); true with Not_found -> false)) &&
           List.exists (fun (_, _, e) -> match e with CbParse q -> atom_of_bytes q = "x53545546464544" | _ -> false) o.events then
